@@ -56,9 +56,9 @@ var (
 	wins      = []int64{1, 1, 1, 2, 3, 5, 10, 60}
 	statuses  = []int{0, 0, 429, 503, 418}
 	hdrNames  = []string{"X-Group", "x-group", "X-Tenant"}
-	hdrValues = []string{"a", "b", "A", " a", "c", "", "a b"}
+	hdrValues = []string{"a", "b", "A", " a", "c", "", "a b", "Gold", "gold", "TeamA", "teama", "a ", "B"}
 	// exact and inexact percentages: 7, 33, 7.25, 1/3 … do not have an exact float64 ratio (F09b candidates)
-	pcts     = []string{"25/1", "50/1", "75/1", "100/1", "0/1", "10/1", "20/1", "150/1", "7/1", "33/1", "725/100", "1/3", "29/1", "57/1"}
+	pcts     = []string{"25/1", "50/1", "75/1", "100/1", "0/1", "10/1", "20/1", "150/1", "7/1", "33/1", "725/100", "1/3", "29/1", "57/1", "7000001/1000000", "333333/1000000", "999999/1000000", "1250001/100000", "58/1", "14/1"}
 	exactPct = []string{"25/1", "50/1", "75/1", "100/1", "0/1", "150/1", "125/10"}
 	defaults = []string{"allow", "block", "use_default_allocation", "use_default_allocation", "", "Allow", "deny"}
 	bases    = []int64{1000, 1_700_000_000, 1709251200 - 2, 1709164800 - 1, 0, 86400*15 - 3}
@@ -173,13 +173,45 @@ func reqLine(r *prng.R, m rem, t int64) string {
 
 func genCase(r *prng.R, mode int) []string {
 	base := prng.Pick(r, bases)
+	caseFam := 0 // 1: case-variant values configured in the table, 2: case-variant values under the default allocation
+	if r.Chance(15) {
+		caseFam = r.Range(1, 2)
+	}
+	var famValues []string
 	floaty := r.Chance(15)
 	nrem := r.Range(1, 3)
 	rs := make([]rem, nrem)
 	var ops []string
+	if r.Chance(25) {
+		ops = append(ops, "wiring hasher=md5") // unit-test wiring; default = identity obfuscator (production)
+	} else if r.Chance(10) {
+		ops = append(ops, "wiring hasher=identity")
+	}
 	noCounters := false
 	for i := range rs {
 		rs[i] = genRemedy(r, i, base, floaty)
+		if i == 0 && caseFam > 0 {
+			// group values (and header names) that differ ONLY in letter case: different groups for the allocation
+			// table, hence different counters (only the header NAME is case-folded in the key)
+			m := &rs[i]
+			m.alloc, m.nohdr = true, false
+			m.hdr = prng.Pick(r, []string{"X-Group", "x-group", "X-GROUP"})
+			m.allowed = int64(r.Range(2, 10))
+			pair := prng.Pick(r, [][]string{{"Gold", "gold", "GOLD"}, {"TeamA", "teama", "TEAMA"}, {"a", "A"}, {"b", "B"}})
+			m.groups = nil
+			if caseFam == 1 {
+				// both variants configured, each with its own percentage
+				for _, v := range pair[:2] {
+					m.groups = append(m.groups, [2]string{v, prng.Pick(r, []string{"50/1", "20/1", "25/1", "75/1", "10/1"})})
+				}
+				m.dflt = prng.Pick(r, []string{"block", "use_default_allocation", "allow"})
+			} else {
+				// both unknown: default allocation
+				m.dflt = "use_default_allocation"
+			}
+			m.dpct = prng.Pick(r, []string{"50/1", "25/1", "100/1"})
+			famValues = pair
+		}
 		if mode == mClean || mode == mBoundary {
 			// a shared name means a shared limiter key: keep its window size constant
 			for j := 0; j < i; j++ {
@@ -219,7 +251,13 @@ func genCase(r *prng.R, mode int) []string {
 			w = 1
 		}
 		t = nextT(r, t, w, boundaryOK)
-		if r.Chance(8) {
+		if famValues != nil && i == 0 && r.Chance(85) {
+			hn := rs[0].hdr
+			if r.Chance(10) {
+				hn = prng.Pick(r, []string{"X-Group", "x-group", "X-GROUP"}) // exact-match lookup: other case = absent
+			}
+			ops = append(ops, fmt.Sprintf("req id=0 t=%d h=%s&%s", t, proto.Enc(hn), proto.Enc(prng.Pick(r, famValues))))
+		} else if r.Chance(8) {
 			// concurrent callers at one instant
 			l := reqLine(r, rs[i], t)
 			ops = append(ops, "burst"+strings.TrimPrefix(l, "req")+fmt.Sprintf(" n=%d par=%d", r.Range(2, 12), r.Range(2, 8)))
@@ -292,7 +330,7 @@ func gen(r *prng.R, f proto.Flags, emit func(proto.Case)) {
 		emit(proto.Case{ID: fmt.Sprintf("m%d", id), Ops: ops})
 	}
 	// concurrency stress: many goroutines on few keys, bursts larger than the cap, several windows
-	nst := 150
+	nst := 600
 	if f.Tier == "thorough" {
 		nst = 3000
 	}
@@ -303,11 +341,11 @@ func gen(r *prng.R, f proto.Flags, emit func(proto.Case)) {
 			fmt.Sprintf("remedy id=1 name=q allowed=%d win=2 status=503 spill=0 renew=0", allowed)}
 		t := 1000*sec + 1 + int64(rr.Intn(int(sec)-1))
 		for j := 0; j < 6; j++ {
-			switch rr.Intn(4) {
+			switch prng.Pick(rr, []int{0, 1, 2, 3, 3, 3}) {
 			case 3:
 				// several groups at once, some never seen before: concurrent get-or-create on the shared map
 				l := fmt.Sprintf("burst id=0 t=%d n=%d par=%d", t, rr.Range(8, 96), rr.Range(2, 32))
-				na := rr.Range(2, 6)
+				na := rr.Range(2, 12)
 				off := rr.Intn(20)
 				for a := 0; a < na; a++ {
 					v := prng.Pick(rr, []string{"a", "b", "c"})
